@@ -106,3 +106,16 @@ def run(ctx, chk):
         chk.ob('C07.F1', 'bound:from-report', all('ClockErrorBoundData).0.0' in x for x in roots), where,
                'all leaves come from the tracking report carried by the message')
     chk.tables['oracle_ns_per_s'] = WANT
+    # ---- F5: the PHC term is the PHC's error bound *for this report*: what the poller attaches to the report is read from
+    # the device after the query that produced the report (C13.P9 re-evaluated under C07)
+    if not getattr(chk, '_nested', False):
+        from . import C13
+        sub = type(chk)('C07', LEVEL, chk.tier)
+        sub._nested = True
+        C13.run(ctx, sub)
+        n = 0
+        for o in sub.obs:
+            if o['rule'] == 'C13.P9' and o['nontrivial']:
+                chk.ob('C07.F5', '%s:%s' % (o['rule'], o['key']), o['ok'], o['where'], o['detail'])
+                n += 1
+        chk.floor('C07.F5', 'paths that attach a PHC error bound to a report', n, 1)
